@@ -16,6 +16,7 @@ from __future__ import annotations
 import math
 
 TAU = 1e-4
+TAU_LOAD = 1e-5  # band for non-rational loads / prizes (C06 widens it to straddle the checkers' own 1e-5)
 
 
 def dist(a, b):
@@ -46,7 +47,7 @@ def load_status(loads, cap, q):
         tot = sum(int(round(v * q)) for v in loads)
         return "ok" if tot <= int(round(cap * q)) else "violated", tot / q
     tot = math.fsum(loads)
-    st = cmp_le(tot, cap, 1e-5)
+    st = cmp_le(tot, cap, TAU_LOAD)
     return st, tot
 
 
@@ -339,7 +340,7 @@ class PCTSP:
                 q = inst["q"]
                 st = "ok" if sum(int(round(inst["real_prize"][a] * q)) for a in vis) >= int(round(inst["required"] * q)) else "violated"
             else:
-                st = cmp_le(inst["required"], tot, 1e-5)
+                st = cmp_le(inst["required"], tot, TAU_LOAD)
             if st != "ok":
                 out.append(("min_prize", st, f"collected prize {tot} < required {inst['required']} with {n-len(vis)} nodes unvisited"))
         return out
